@@ -44,6 +44,7 @@ def run(ctx):
     d2_single_source(ctx, ic, ii, ff)
     d3_validation_iterindices(ctx, ii)
     d3_validation_fit_frames(ctx, ff)
+    d3_int_normalised(ctx, ff)
     d4_consumers(ctx, ic, ff)
     d5_frame_recurrence(ctx, ii, ff)
 
@@ -80,13 +81,22 @@ def d1_copies(ctx, ic, ii):
         if a is None:
             a, b = f'{t}[0]', f'{t}[1]'
     if a is not None:
-        for y in ys:
-            for s in ast.walk(y.value) if y.value is not None else []:
-                if isinstance(s, ast.Subscript) and isinstance(s.value, ast.Name) and s.value.id in seeds and \
-                        isinstance(s.slice, ast.Slice) and s.slice.step is None and \
-                        s.slice.lower is not None and s.slice.upper is not None and \
-                        norm(s.slice.lower) == a and norm(s.slice.upper) == b:
-                    ok = True
+        # EVERY yield of the frame loop reads the map at yield time with the frame's own bounds: a second yield that
+        # serves the frame from something read earlier (a read-ahead block, the previous chunk) returns stale data
+        # when the array is written between two next() calls
+        def reads_frame(y):
+            if y.value is None:
+                return False
+            for val in (y.value, _inl0(ic, y.value)):
+                for s in ast.walk(val):
+                    if isinstance(s, ast.Subscript) and isinstance(s.value, ast.Name) and s.value.id in seeds and \
+                            isinstance(s.slice, ast.Slice) and s.slice.step is None and \
+                            s.slice.lower is not None and s.slice.upper is not None and \
+                            norm(s.slice.lower) == a and norm(s.slice.upper) == b:
+                        return True
+            return False
+        inloop = [y for y in ys if any(p is loops[0] for p, _f in enclosing(ic.node, y))]
+        ok = bool(inloop) and all(reads_frame(y) for y in inloop)
     if not ok and not loops:
         # lazy form: `frames = iterindices(...)`; `chunks = (copy(map[a:b]) for a, b in frames)`; `for c in chunks: yield c`
         from ..pathcond import inline as _inl
@@ -328,6 +338,82 @@ def d3_validation_fit_frames(ctx, ff):
                    detail=f'`return {norm(bad[0].value) if bad else ""}` is reachable without validating {p}: an '
                           f'invalid {p} is silently accepted on that path')
     ctx.floor('C14 fit_frames validated parameters', n, 3)
+
+
+def d3_int_normalised(ctx, ff):
+    """fit_frames accepts floats that equal integers (documented; in the property's input space together with large
+    values): its arithmetic must run on ints, i.e. every +, -, *, // on a value that comes from a parameter is
+    preceded by the rebinding `p = int(p)`.  Converting only the results computes in double precision, which is
+    wrong above 2**53.  Taint walk in source order; `%` and comparisons (the validation) are not arithmetic here."""
+    params = [p for p in ('totallen', 'chunklen', 'steplen') if p in ff.params]
+    T = set(params)
+    bad = []
+    narith = [0]
+
+    def names_outside_int(e):
+        out = set()
+
+        def walk(x):
+            if isinstance(x, ast.Call) and (dotted(x.func) or '') == 'int':
+                return
+            if isinstance(x, ast.Name):
+                out.add(x.id)
+            for c in ast.iter_child_nodes(x):
+                walk(c)
+        walk(e)
+        return out
+
+    def scan_expr(e):
+        if e is None:
+            return
+        for x in ast.walk(e):
+            if isinstance(x, ast.BinOp) and isinstance(x.op, (ast.FloorDiv, ast.Mult, ast.Add, ast.Sub, ast.Div)):
+                narith[0] += 1
+                hit = names_outside_int(x) & T
+                if hit:
+                    bad.append((x, sorted(hit)))
+
+    def visit(stmts, top):
+        for st in stmts:
+            if isinstance(st, ast.If):
+                visit(st.body, False)
+                visit(st.orelse, False)
+            elif isinstance(st, (ast.Assign, ast.AnnAssign, ast.AugAssign)):
+                v = st.value
+                scan_expr(v)
+                tg = st.targets if isinstance(st, ast.Assign) else [st.target]
+                for t in tg:
+                    for nm in ([t] if isinstance(t, ast.Name) else [x for x in ast.walk(t) if isinstance(x, ast.Name)]):
+                        if isinstance(st, ast.AugAssign):
+                            if names_outside_int(v) & T:
+                                T.add(nm.id)
+                        elif names_outside_int(v) & T:
+                            T.add(nm.id)
+                        elif top:
+                            T.discard(nm.id)
+            elif isinstance(st, ast.Return):
+                scan_expr(st.value)
+            elif isinstance(st, ast.Expr):
+                scan_expr(st.value)
+            elif isinstance(st, (ast.For, ast.While, ast.With, ast.Try)):
+                for x in ast.walk(st):
+                    if isinstance(x, ast.expr):
+                        pass
+                visit(getattr(st, 'body', []), False)
+    visit(ff.node.body, True)
+    seen = set()
+    bad = [(x, h) for x, h in bad if not any(x is not y and any(z is x for z in ast.walk(y)) for y, _ in bad)]
+    if bad:
+        x, hit = bad[0]
+        ctx.bad('R-FLOW', 'D3', ff, x, 'int-before-arithmetic',
+                'fit_frames: every arithmetic operation on a parameter-derived value runs after `p = int(p)`',
+                detail=f'`{norm(x)[:70]}` computes with {hit} as given: for float arguments the count/covered/remainder '
+                       f'are computed in double precision (wrong above 2**53), converting the results afterwards does not help')
+    else:
+        ctx.ok('R-FLOW', 'D3', ff, None, 'int-before-arithmetic',
+               f'fit_frames: every arithmetic operation on a parameter-derived value runs after `p = int(p)` '
+               f'({narith[0]} arithmetic operation(s))')
+    ctx.floor('C14 fit_frames arithmetic operations', narith[0], 3)
 
 
 def d4_consumers(ctx, ic, ff):
